@@ -282,6 +282,8 @@ func join(basePath *url.URL, relativePath *url.URL) *url.URL {
 	}
 	newPath := *basePath
 	newPath.Path = path.Join(path.Dir(newPath.Path), relativePath.Path)
+	// the query belongs to the reference, not to the document it stands in (RFC 3986, 5.2.2)
+	newPath.RawQuery, newPath.ForceQuery = relativePath.RawQuery, relativePath.ForceQuery
 	return &newPath
 }
 
